@@ -598,6 +598,12 @@ func gmMeta(r *rng, key string) []byte {
 			}
 			return klv(key, 'c', size, n, payload)
 		}
+		if r.chance(1, 8) {
+			// a blank value is a value: zero length, or a fixed-width field that is all padding
+			// (restating a name as blank must replace the earlier one)
+			n := pick(r, []int{0, 0, 1, 4, 7})
+			return klv(key, 'c', 1, n, make([]byte, n))
+		}
 		v := pick(r, []string{"Accelerometer", "m/s\xb2", "deg", "GPS (Lat., Long., Alt., 2D speed, 3D speed)", "x", "Camera" + fmt.Sprint(r.intn(9)), "\xb0/s", "\xb5T"})
 		return klv(key, 'c', 1, len(v), []byte(v))
 	}
